@@ -171,7 +171,7 @@ package kapacitor
 //@   trusted
 //@   pure
 
-//@ spec alertNodeOK(n *AlertNode) bool = n != nil && len(n.levels) == 4 && len(n.scopePools) == 4 && len(n.levelResets) == 4 && len(n.lrScopePools) == 4
+//@ spec alertNodeOK(n *AlertNode) bool = n != nil && n.diag != nil && len(n.levels) == 4 && len(n.scopePools) == 4 && len(n.levelResets) == 4 && len(n.lrScopePools) == 4
 
 // Level l's condition holds for the point.
 //@ spec levelSat(n *AlertNode, l int, p edge.FieldsTagsTimeGetter) bool = n.levels[l] != nil
@@ -523,11 +523,11 @@ package kapacitor
 //@   modifies gfi(p, mutated, bool)
 //@ func (*stateTrackingGroup).Point
 //@   props C10 C05
-//@   requires g != nil && g.n != nil && p != nil && !gfi(p, mutated, bool)
+//@   requires g != nil && g.n != nil && g.n.diag != nil && p != nil && !gfi(p, mutated, bool)
 //@   ensures !gfi(p, mutated, bool)
 //@ func (*stateTrackingGroup).BatchPoint
 //@   props C10 C05
-//@   requires g != nil && g.n != nil && bp != nil && !gfi(bp, mutated, bool)
+//@   requires g != nil && g.n != nil && g.n.diag != nil && bp != nil && !gfi(bp, mutated, bool)
 //@   ensures !gfi(bp, mutated, bool)
 
 // ---------------------------------------------------------------- window.go: count windows (C03)
